@@ -232,6 +232,52 @@ class C09Check(PoolCheck):
         return out
 
 
+class C15Check(PoolCheck):
+    """Adds the session family: pool_size read and assigned through a control session, compared with a twin pool driven directly."""
+
+    def prepare(self):
+        from . import control, mods
+
+        self.mods = control.load_control(mods.load())
+
+    def families(self, tier):
+        return super().families(tier) + [("session", 300 if tier == "quick" else 10000)]
+
+    def make_case(self, fam, seed, i, tier):
+        if fam == "session":
+            import random
+
+            from . import c17
+
+            sc = c17.gen_scenario(random.Random(f"{seed}:C15s:{i}"))
+            sc["cls"] = "T" if i % 2 else "S"
+            sc["sfunc"] = "block"
+            sc["size"] = [1, 2, 3, None][i % 4]
+            sc["as_c15"] = True
+            sc["noise"] = False
+            sc["only"] = ["pool_size", "pool_size", "pool_size", "num_running", "is_full"] + (["apply", "cancel_all"] if sc["cls"] == "T" else ["start", "stop", "stop_all"])
+            return sc
+        return super().make_case(fam, seed, i, tier)
+
+    def run_case(self, case, verbose=False):
+        if not case.get("as_c15"):
+            return super().run_case(case, verbose)
+        from . import c17
+
+        w = c17.World(self.mods, case)
+        r = w.run()
+        sit = dict(r["sit"])
+        sit["C15.session_pool_size_commands"] = sit.get("C17.cmd.pool_size", 0)
+        out = {"viol": r["viol"], "sit": sit, "inconclusive": r["inconclusive"], "nontrivial": sit.get("C17.cmd.pool_size", 0) > 0,
+               "sig": "session:" + str(case["seed"]), "extra": {}}
+        if r["viol"]:
+            out["log_tail"] = w.log[-60:]
+        if verbose:
+            out["log"] = w.log
+        out["sample"] = {"case": case, "log_head": w.log[:20]}
+        return out
+
+
 def has(*keys):
     def f(sit):
         return all(any(k2.startswith(k) and v > 0 for k2, v in sit.items()) for k in keys)
@@ -249,13 +295,13 @@ def reg(c):
 
 
 reg(PoolCheck(
-    "C01", P(sizes=[0, 1, 1, 2, 2, 3, 3, 4, None], w={"apply": 8, "map": 8, "start": 8, "reject": 0, "probe": 0.2}),
+    "C01", P(sizes=[0, 0, 1, 1, 2, 2, 3, 3, 4, None], w={"apply": 8, "map": 8, "start": 8, "reject": 0, "probe": 0.2, "grow_size": 1.5}),
     "random scenarios (1-2 pools, sizes 0..4/unbounded, 5-35 operations incl. spawn/cancel/flush/close placed at iteration "
     "boundaries and inside workers/callbacks/iterators); non-trivial = a task began into the last free slot and tasks ended in "
     ">=2 different ways; distinct = distinct (operation,situation) sequence + event-bigram signature",
     lambda s: s.get("C01.begin_at_last_slot", 0) > 0 and sum(1 for k in ("end.return", "end.raise", "end.cancelled") if s.get(k)) >= 2,
     6000, 240000,
-    floors={"C01.begin_at_last_slot": 2000, "C01.is_full.full": 200, "C01.is_full.room": 500},
+    floors={"C01.begin_at_last_slot": 2000, "C01.is_full.full": 200, "C01.is_full.room": 500, "C01.reconfigured_empty_pool.waiting": 50},
 ))
 
 reg(PoolCheck(
@@ -279,7 +325,7 @@ reg(PoolCheck(
 ))
 
 reg(PoolCheck(
-    "C04", P(cls=["T", "T", "S"], w={"apply": 12, "start": 12, "map": 3, "lock": 3, "unlock": 2, "gac": 1, "cancel": 3, "cancel_group": 2, "reject": 0},
+    "C04", P(cls=["T", "T", "S"], w={"apply": 12, "start": 12, "map": 3, "lock": 3, "unlock": 2, "gac": 1, "cancel": 3, "cancel_group": 2, "reject": 0, "set_size": 0.8},
              callraise=0.2),
     "random scenarios dominated by apply/start requests (num 0..8, args/kwargs shapes) on small pools with lock/unlock/gather_and_close and unrelated "
     "cancellations after acceptance; non-trivial = a request was accepted on a full pool and completed its exact count; distinct by signature",
@@ -295,7 +341,7 @@ reg(PoolCheck(
     "gated completion orders, single cancellations, bad elements; non-trivial = more elements than num_concurrent and the tight laziness bound was reached; distinct by signature",
     lambda s: s.get("C05.n_gt_nc", 0) > 0 and s.get("C05.lazy_tight", 0) > 0,
     6000, 240000,
-    floors={"C05.work_conserving_checked": 300, "C05.lazy_tight": 5000, "C05.skip_checked": 300, "C05.begin_at_nc": 2000},
+    floors={"C05.empty_element": 100, "C05.work_conserving_checked": 300, "C05.lazy_tight": 5000, "C05.skip_checked": 300, "C05.begin_at_nc": 2000},
 ))
 
 reg(PoolCheck(
@@ -379,7 +425,7 @@ reg(PoolCheck(
 ))
 
 reg(PoolCheck(
-    "C14", P(cls=["S"], npools=[1], w={"start": 10, "stop": 12, "cancel": 5, "open": 6, "apply": 0, "map": 0, "cancel_group": 1, "cancel_all": 0.3, "reject": 0, "gac": 0}),
+    "C14", P(cls=["S"], npools=[1, 1, 2], w={"start": 10, "stop": 12, "cancel": 5, "open": 6, "apply": 0, "map": 0, "cancel_group": 1, "cancel_all": 0.3, "reject": 0, "gac": 0}),
     "random SimpleTaskPool histories of start/stop/stop_all/cancel(id)/finish that leave gaps in the running ids, n from -1..5; "
     "non-trivial = stop() was called while the running ids had gaps; distinct by signature",
     lambda s: s.get("C14.gaps", 0) > 0,
@@ -388,7 +434,7 @@ reg(PoolCheck(
 ))
 
 
-reg(PoolCheck(
+reg(C15Check(
     "C15", P(sizes=[0, 1, 2, 3, 5, None], size_track=True, cls=["T", "S"], npools=[1],
              w={"set_size": 10, "apply": 8, "start": 8, "map": 0, "open": 8, "idle": 6, "cancel": 2, "stop": 2, "cancel_group": 1, "cancel_all": 0.3,
                 "flush": 1, "gac": 0, "reject": 0, "probe": 0, "lock": 0.3, "unlock": 0.3, "intruder": 1},
@@ -398,7 +444,7 @@ reg(PoolCheck(
     lambda s: any(k.endswith(".busy") or k.endswith(".waiting") for k in s if k.startswith("C15.assign")),
     6000, 240000,
     floors={"C15.assign.grow.waiting": 300, "C15.assign.shrink.busy": 300, "C15.assign.below_running": 100, "C15.negative": 300,
-            "C15.reports_checked.busy": 20000, "C15.begin_after_assign": 1000, "C15.idle_with_waiting": 500},
+            "C15.reports_checked.busy": 20000, "C15.begin_after_assign": 1000, "C15.idle_with_waiting": 500, "C15.session_pool_size_commands": 500},
 ))
 
 
